@@ -153,12 +153,30 @@ class LenFacts:
         return ex is not None and ex == ({}, n)
 
 
-def _drawn_from(x, container) -> bool:
+def _drawn_from(x, container, conds=None) -> bool:
     """x is an element term drawn from `container` (directly, through a snapshot list(..)/tuple(..), or through
     .keys() / .items()[0]) - then container.remove(x) / container.pop(x) / container.index(x) finds it"""
     from .util import unwrap_iter
     c = strip_sites(container)
     cur = x
+    if cur[0] == "tuple" and cur[1] and conds is not None:
+        # the element rebuilt from its parts: (e[0], t) with `e[1] == t` established on the path, e drawn from the container
+        elems = {p_[1] for p_ in cur[1] if p_[0] == "item" and p_[1][0] == "elem" and is_const(p_[2])}
+        if len(elems) == 1:
+            el = next(iter(elems))
+            if _drawn_from(el, container):
+                eqs = set()
+                for cnd, v in conds:
+                    if cnd[0] == "cmp" and len(cnd) == 4 and ((cnd[1] == "==" and v) or (cnd[1] == "!=" and not v)):
+                        eqs.add((strip_sites(cnd[2]), strip_sites(cnd[3])))
+                        eqs.add((strip_sites(cnd[3]), strip_sites(cnd[2])))
+                ok = True
+                for j, p_ in enumerate(cur[1]):
+                    want = strip_sites(("item", el, const(j)))
+                    if strip_sites(p_) != want and (want, strip_sites(p_)) not in eqs:
+                        ok = False
+                if ok:
+                    return True
     if cur[0] == "item" and cur[2] == const(0):
         cur = cur[1]
     if cur[0] != "elem":
@@ -216,6 +234,18 @@ class EscapePolicy(InlineOnly):
         o = self.oracle
         if ev.kind == "await":
             return []
+        if getattr(s, "truncated", False):
+            # beyond the unrolling bound the values a cut loop produced are unknown; the code that follows was analysed
+            # with known values on the paths inside the bound (what can fail there is found there)
+            return []
+        if ev.kind == "store":
+            # `del base[idx]`: fails like the lookup does (also on a defaultdict), unless the path established membership
+            if ev.value != ("deleted",) or ev.target is None or ev.target[0] != "item":
+                return []
+            if _membership_known(s, ev.target[1], ev.target[2]):
+                return []
+            o.note_site("KeyError", ev)
+            return ["KeyError"]
         if ev.kind == "load":
             base, idx = ev.target[1], ev.target[2]
             kind = o.container_kind(base, eng)
@@ -300,7 +330,7 @@ class EscapePolicy(InlineOnly):
         if ev.attrname in ("pop", "remove", "index") and not ev.targets and ev.recv is not None:
             if ev.attrname == "pop" and len(ev.args) >= 2:
                 return []
-            if ev.args and _drawn_from(ev.args[0], ev.recv):
+            if ev.args and _drawn_from(ev.args[0], ev.recv, [(c_, v_) for c_, v_, _n, _k in s.conds]):
                 return []  # the element / key was obtained by iterating this very container
             return {"pop": ["KeyError"], "remove": ["ValueError"], "index": ["ValueError"]}[ev.attrname]
         if f is not None and f[0] == "classconst" and len(ev.args) == 1:
@@ -405,6 +435,18 @@ class Escapes:
                         import ast as _ast
                         if isinstance(val, _ast.Call) and _ast.unparse(val.func).split(".")[-1] in ("defaultdict", "Counter"):
                             return "defaultdict"  # a missing key yields a default, not KeyError
+            if ty and ty[0] == "cls":
+                # a (cached) property that builds / is declared as a defaultdict
+                import ast as _ast
+                m = self.prog.lookup_method(ty[1], b[2])
+                if m is not None and m.kind == "property":
+                    ann = _ast.unparse(m.node.returns) if m.node.returns is not None else ""
+                    rets = [n.value for n in _ast.walk(m.node) if isinstance(n, _ast.Return) and n.value is not None]
+                    if ann.split("[")[0].split(".")[-1] in ("DefaultDict", "defaultdict", "Counter") or (rets and all(
+                            isinstance(r, _ast.Call) and _ast.unparse(r.func).split(".")[-1] in ("defaultdict", "Counter") for r in rets)):
+                        return "defaultdict"
+        if b[0] == "call" and b[1][0] == "ext" and b[1][1].split(".")[-1] in ("defaultdict", "Counter"):
+            return "defaultdict"
         if b[0] == "item" and self.container_kind(b[1], eng) == "defaultdict":
             return "dict"
         if b[0] == "call" and layout.unpack_call(eng, b) is not None:
